@@ -106,3 +106,17 @@ impl TopicAliasRecv {
         self.max_alias
     }
 }
+
+#[cfg(feature = "verif-hooks")]
+impl TopicAliasRecv {
+    /// Verification hook: (max, alias -> topic sorted by alias)
+    pub fn verif_dump(&self) -> (TopicAliasType, alloc::vec::Vec<(TopicAliasType, String)>) {
+        let mut v: alloc::vec::Vec<(TopicAliasType, String)> = self
+            .aliases
+            .iter()
+            .map(|(a, t)| (*a, t.clone()))
+            .collect();
+        v.sort();
+        (self.max_alias, v)
+    }
+}
